@@ -5,6 +5,7 @@ mod mapping;
 mod pool;
 mod provider;
 mod rng;
+mod snapshot;
 mod solve;
 mod universe;
 
@@ -47,9 +48,10 @@ fn main() {
         }
         std::thread::sleep(std::time::Duration::from_millis(50));
     }
-    if worker.join().is_err() { std::process::exit(87); }
+    if worker.join().is_err() { eprintln!("harness worker panicked: {}", LAST_PANIC_GLOBAL.lock().map(|g| g.clone()).unwrap_or_default()); std::process::exit(87); }
 }
 
+pub static LAST_PANIC_GLOBAL: std::sync::Mutex<String> = std::sync::Mutex::new(String::new());
 pub static PROGRESS: std::sync::atomic::AtomicU64 = std::sync::atomic::AtomicU64::new(0);
 
 fn real_main() {
@@ -63,6 +65,7 @@ fn real_main() {
     let replay = arg(&args, "--replay");
     std::panic::set_hook(Box::new(|info| {
         let loc = info.location().map(|l| format!("{}:{}", l.file(), l.line())).unwrap_or_default();
+        if let Ok(mut g) = LAST_PANIC_GLOBAL.lock() { *g = format!("{loc} {}", info.payload().downcast_ref::<String>().cloned().or(info.payload().downcast_ref::<&str>().map(|s| s.to_string())).unwrap_or_default()); }
         LAST_PANIC_LOC.with(|l| *l.borrow_mut() = loc);
     }));
     let mut cases_f = std::io::BufWriter::new(std::fs::File::create(&cases_path).unwrap());
@@ -90,13 +93,16 @@ fn real_main() {
                 "amo" => amo::gen_case(&mut crng, i),
                 "cache" => cache::gen_case(&mut crng),
                 "pool" => pool::gen_case(&mut crng),
+                "snapshot" => snapshot::gen_case(&mut crng),
                 "solve" => { let k = *crng.pick(&[gen::Kind::General, gen::Kind::General, gen::Kind::Tight, gen::Kind::Tight, gen::Kind::Hints]); solve::gen_case(&mut crng, k) }
                 "soft" => solve::gen_case(&mut crng, gen::Kind::Soft),
                 "lazy" => solve::gen_case(&mut crng, gen::Kind::Lazy),
                 "cancel" => solve::gen_cancel_case(&mut crng),
                 "reuse" => solve::gen_reuse_case(&mut crng, false),
                 "reuse-async" => solve::gen_reuse_case(&mut crng, true),
-                "async" => solve::gen_async_case(&mut crng),
+                "amo-solve" => solve::gen_amo_solve_case(&mut crng, i),
+                "async" => solve::gen_async_case(&mut crng, false),
+                "async-cf" => solve::gen_async_case(&mut crng, true),
                 "conflictfree" => solve::gen_case(&mut crng, gen::Kind::ConflictFree),
                 f => panic!("unknown family {f}"),
             },
@@ -113,7 +119,8 @@ fn real_main() {
             "amo" => guarded(move || amo::run_case(&l2)),
             "cache" => guarded(move || cache::run_case(&l2)),
             "pool" => guarded(move || pool::run_case(&l2)),
-            "solve" | "soft" | "conflictfree" | "lazy" | "cancel" | "reuse" | "reuse-async" | "async" => guarded(move || solve::run_case(&l2)),
+            "snapshot" => guarded(move || snapshot::run_case(&l2)),
+            "solve" | "soft" | "conflictfree" | "lazy" | "cancel" | "reuse" | "reuse-async" | "async" | "async-cf" | "amo-solve" => guarded(move || solve::run_case(&l2)),
             f => panic!("unknown family {f}"),
         };
         writeln!(impl_f, "case {i} {family}").unwrap();
